@@ -27,7 +27,14 @@ class Observer(ArbModel):
         ctl = self.ctl_vectors()
         resp = self.resp_vectors()
         rej = (0, 1) if self.rejected else (0,)
-        self._letters = [self.letter(c, 2, r, j) for c in ctl for r in resp for j in rej]
+        # The next-owner function is explored over control inputs; if the netlist shows that anything else
+        # (address, data, select, we, cti, bte, read data) can reach the state through the response path,
+        # those inputs are enumerated over all token phases as well.
+        state_cone = set(comp.support_of([f"i{k}_ack" for k in range(self.n)]))
+        data_in = [n for n in state_cone if n.split("_", 1)[-1] in ("adr", "dat_w", "sel", "we", "cti", "bte", "dat_r")]
+        phases = (2,) if not data_in else tuple(range(phases_for(self.n)))
+        self.data_inputs_in_state_cone = data_in
+        self._letters = [self.letter(c, p, r, j) for c in ctl for p in phases for r in resp for j in rej]
         self.edges = set()      # (hw, hw2, request mask, released)
 
     def letters(self, obs):
